@@ -225,7 +225,7 @@ def r_op(op, split=False):
         return "INSERT DATA { %s }" % r_data(op[1], op[2], split)
     if k == "deldata":
         return "DELETE DATA { %s }" % r_data(op[1], op[2], split)
-    if k == "delwhere":
+    if k in ("delwhere", "delwherew"):
         return "DELETE WHERE { %s }" % r_tmpl(op[1], split)
     if k in ("modify", "modifyw"):
         _, w, ud, un, d, i, wk = op
@@ -313,6 +313,8 @@ def c_op(op, om):
         return "InsertData %s %s" % (clist(c_triple(t) for t in op[1]), c_blocks(op[2]))
     if k == "deldata":
         return "DeleteData %s %s" % (clist(c_triple(t) for t in op[1]), c_blocks(op[2]))
+    if k == "delwherew":
+        return "DeleteWhereW %s" % c_tmpl(op[1])
     if k == "delwhere":
         return "DeleteWhere %s %s" % (c_tmpl(op[1]), c_omega(om))
     if k == "modifyw":
@@ -452,7 +454,7 @@ class C10(Suite):
     case_ty = "case"
     obs_ty = "obs"
     kf = "kf"
-    kf_ids = {1: "F10f", 2: "F10i", 3: "F10j"}
+    kf_ids = {2: "F10i"}
     corr = ("update.evalUpdate/evalInsertData/evalDeleteData/evalDeleteWhere/evalModify/evalClear/evalDrop/evalAdd/"
             "evalMove/evalCopy/_graphAll/_graphOrDefault, evalutils._fillTemplate")
     quick_n = 900
@@ -505,7 +507,8 @@ class C10(Suite):
                 seen_bnode = tmpl_has_bnode(ins)
             elif x < 0.55 and not seen_bnode:
                 tm = gen_tmpl(rng, False, allow_q, legal_only=True, fat=split)
-                ops.append(["delwhere", tm])
+                # the model computes the solutions itself (DeleteWhereW) or gets them from a SELECT
+                ops.append(["delwherew" if rng.random() < 0.6 else "delwhere", tm])
             elif x < 0.65:
                 ops.append(["insdata"] + list(gen_data(rng, allow_q, split)))
             elif x < 0.73:
